@@ -138,7 +138,16 @@ def oracle(case, out):
             if not gapfree(rec):
                 found.setdefault('gap-in-recovered-log' + sfx, where + 'recovered log has an index gap: %s' % json.dumps([e[0] for e in rec]))
             back = recset & (replaced if mode == 'process crash' else replaced_at_flush)
-            if back:
+            if back and mode == 'power loss' and not mem:
+                # the live log is empty (purged or reset completely): flush() returns at once (max_index == 0) without asking
+                # the store to sync, so the truncation / purge / reset before it is not durable although flush() said Ok
+                found.setdefault('replaced-entry-came-back-after-flush-of-emptied-log', where + 'the log had been emptied by a purge or reset, flush() returned Ok without syncing the store (max_index = 0), and entries %s that a conflict truncation had replaced earlier are in the log recovered after power loss' % json.dumps(sorted(back)))
+            elif back and kind == 1:
+                # FileLogStore truncates log.data by file position (C20 known finding file-entries-after-reopen): once the IO
+                # thread has re-persisted a replacement tail (it does since 50a24e0), records are no longer in index order in
+                # the file and a later truncation cuts at the wrong place
+                found.setdefault('replaced-entry-came-back-file-store-positional-truncate', where + 'FileStorageEngine: entries %s had been replaced by a conflict truncation and are in the recovered log (the file holds re-written records; FileLogStore::replace_range cut it by position)' % json.dumps(sorted(back)))
+            elif back:
                 found.setdefault('replaced-entry-came-back' + sfx, where + 'entries %s had been replaced by a conflict truncation%s and are in the recovered log' % (json.dumps(sorted(back)), '' if mode == 'process crash' else ' before the last successful flush()'))
         prev_mem = mem; prev_dur = dur
     return sorted(found.items())
@@ -189,8 +198,14 @@ def check(run):
         for i, (c, o) in enumerate(zip(cases, outs)):
             if isinstance(o, str):
                 broken.append(('correspondence', 'logcrash probe error', (json.dumps(c) + ' -> ' + o)[:400])); continue
-            pairs.append((c, o)); idx.append(i)
-            for cls, why in oracle(c, o):
+            res = oracle(c, o)
+            # the model assumes the store contract (C20); a case in which FileLogStore's positional truncation (C20 known
+            # finding) shows is a known finding here and is left out of the model comparison
+            if not any(cls == 'replaced-entry-came-back-file-store-positional-truncate' for cls, _ in res):
+                pairs.append((c, o)); idx.append(i)
+            else:
+                dist['left-out-of-model-comparison (file store contract broken, C20)'] = dist.get('left-out-of-model-comparison (file store contract broken, C20)', 0) + 1
+            for cls, why in res:
                 dist['violating:' + cls] = dist.get('violating:' + cls, 0) + 1
                 violations.append({'class': cls, 'probe': PROBE, 'input': c, 'output': o, 'why': why})
         mism = core.coq_index_list(IMPORTS, '', 'crash_probe', pairs, tag='C18', shard=120)
